@@ -26,7 +26,7 @@ impl Prop for C18 {
         "C18"
     }
     fn rule(&self) -> String {
-        "single-edge graphs of both directions, with and without self-loops, n in 1..=14, unweighted or non-negative dyadic weights (zeros included), shapes with slow convergence (paths, bipartite/layered DAGs, stars) and fast (regular, complete); every graph is evaluated on the grid max_iter in {1,2,5,20,100,1000} x 3 generated tolerances in [1e-12,1e-2], each call repeated twice (summation order varies with hash order). On Ok(x): one entry per node, all >= 0, | ||x||_2 - 1 | <= 1e-9, and one further documented step y = normalise(x + A^T x) satisfies ||y - x||_2 <= 2 ||I + A^T||_F n tol + 1e-9 (derived from the convergence test; sound for n <= 14, see DESIGN.md). On Err: PowerIterationFailedConvergence. Metamorphic: Ok at (k, tol) => Ok at any (k' >= k, tol' >= tol(1+1e-6)). Non-trivial = n >= 3, the graph is an asymmetric directed graph or a slow-converging shape, and both Ok and Err outcomes occur on the grid; distinct = distinct serialised case.".into()
+        "single-edge graphs of both directions, with and without self-loops, n in 1..=14 (and one case in 3000 with a procedurally generated sparse graph of 200..2500 nodes, tolerance capped at 0.2/n), unweighted or non-negative dyadic weights (zeros included), shapes with slow convergence (paths, bipartite/layered DAGs, stars) and fast (regular, complete); every graph is evaluated on the grid max_iter in {1,2,5,20,100,1000} x 3 generated tolerances in [1e-12,1e-2], each call repeated twice (summation order varies with hash order). On Ok(x): one entry per node, all >= 0, | ||x||_2 - 1 | <= 1e-9, and one further documented step y = normalise(x + A^T x) satisfies ||y - x||_2 <= 2 ||I + A^T||_F n tol + 1e-9 (derived from the convergence test; sound for n <= 14, see DESIGN.md). On Err: PowerIterationFailedConvergence. Metamorphic: Ok at (k, tol) => Ok at any (k' >= k, tol' >= tol(1+1e-6)). Non-trivial = n >= 3, the graph is an asymmetric directed graph or a slow-converging shape, and both Ok and Err outcomes occur on the grid; distinct = distinct serialised case.".into()
     }
     fn assumptions(&self) -> Vec<String> {
         vec![
@@ -52,7 +52,8 @@ impl Prop for C18 {
         fn me(n: usize) -> usize {
             n * 2 + 1
         }
-        (graph_strategy(&SINGLE_KINDS, 1, 14, me, &[0, 1, 2, 3], 5), proptest::collection::vec(any::<u8>(), 3), any::<bool>()).prop_map(|(g, tols, weighted)| EigCase { g, tols, weighted }).boxed()
+        let big = big_graph_strategy(&[0, 1], 200, 2500, &[0, 1]);
+        (prop_oneof![3000 => graph_strategy(&SINGLE_KINDS, 1, 14, me, &[0, 1, 2, 3], 5), 1 => big], proptest::collection::vec(any::<u8>(), 3), any::<bool>()).prop_map(|(g, tols, weighted)| EigCase { g, tols, weighted }).boxed()
     }
     fn random_cases(&self, tier: Tier) -> u32 {
         tier.pick(30_000, 400_000)
@@ -63,25 +64,47 @@ impl Prop for C18 {
         let graph = ng.build();
         let n = ng.n;
         let weighted = case.weighted && ng.weighted;
-        // A[i][j] = weight of edge i -> j (both directions when undirected, a self-loop once)
-        let mut a = vec![vec![0.0f64; n]; n];
+        let big = n > 100;
+        // edge weights as the iteration sees them (a self-loop once)
+        let wt = |w: f64| if weighted { w } else { 1.0 };
+        // Frobenius norm of M = I + A^T from the edge list (single-edge graphs: one entry per pair)
+        let mut diag = vec![1.0f64; n];
+        let mut off2 = 0.0;
         for (i, j, w) in &ng.edges {
-            let c = if weighted { *w } else { 1.0 };
-            a[*i][*j] = c;
-            if !ng.directed {
-                a[*j][*i] = c;
+            if i == j {
+                diag[*i] += wt(*w);
+            } else {
+                off2 += wt(*w) * wt(*w) * if ng.directed { 1.0 } else { 2.0 };
             }
         }
-        // M = I + A^T
-        let m: Vec<Vec<f64>> = (0..n).map(|i| (0..n).map(|j| a[j][i] + if i == j { 1.0 } else { 0.0 }).collect()).collect();
-        let fro: f64 = m.iter().flatten().map(|x| x * x).sum::<f64>().sqrt();
+        let fro: f64 = (diag.iter().map(|x| x * x).sum::<f64>() + off2).sqrt();
+        // y = (I + A^T) v, sparse
+        let step = |v: &[f64]| -> Vec<f64> {
+            let mut y = v.to_vec();
+            for (i, j, w) in &ng.edges {
+                y[*j] += wt(*w) * v[*i];
+                if !ng.directed && i != j {
+                    y[*i] += wt(*w) * v[*j];
+                }
+            }
+            y
+        };
+        let asymmetric_edges = ng.directed && {
+            let set: std::collections::HashSet<(usize, usize)> = ng.edges.iter().map(|e| (e.0, e.1)).collect();
+            ng.edges.iter().any(|e| !set.contains(&(e.1, e.0)))
+        };
         let mut tols: Vec<f64> = case.tols.iter().map(|t| 10f64.powf(-(2.0 + *t as f64 / 25.5))).collect();
+        if big {
+            // n * tol must stay below 0.25 (see the derivation of the bound); fewer grid points
+            tols = tols.into_iter().map(|t| t.min(0.2 / n as f64)).take(1).collect();
+        }
+        let max_iters: Vec<u32> = if big { vec![50, 400] } else { MAX_ITERS.to_vec() };
         tols.sort_by(|x, y| x.partial_cmp(y).unwrap());
         let mut grid: Vec<(u32, f64, bool)> = vec![];
-        for mi in MAX_ITERS {
+        for mi in max_iters {
             for tol in &tols {
                 let mut outcome = None;
-                for _rep in 0..2 {
+                for _rep in 0..(if big { 1 } else { 2 }) {
                     out.api_calls += 1;
                     let ctx = "eigenvector_centrality";
                     match guard(|| eigenvector_centrality(&graph, weighted, Some(mi), Some(*tol))) {
@@ -110,7 +133,7 @@ impl Prop for C18 {
                                 return out;
                             }
                             // one more documented step
-                            let mut y: Vec<f64> = (0..n).map(|i| (0..n).map(|j| m[i][j] * v[j]).sum()).collect();
+                            let mut y: Vec<f64> = step(&v);
                             let ny: f64 = y.iter().map(|e| e * e).sum::<f64>().sqrt();
                             y.iter_mut().for_each(|e| *e /= ny);
                             let diff: f64 = y.iter().zip(&v).map(|(p, q)| (p - q) * (p - q)).sum::<f64>().sqrt();
@@ -139,17 +162,20 @@ impl Prop for C18 {
         }
         let any_ok = grid.iter().any(|g| g.2);
         let any_err = grid.iter().any(|g| !g.2);
-        let asymmetric = ng.directed && (0..n).any(|i| (0..n).any(|j| a[i][j] != a[j][i]));
+        let asymmetric = asymmetric_edges;
         let slow = matches!(case.g.shape, 1 | 3 | 9);
         out.class(format!("kind_{}", ng.spec().label()));
         out.class(if weighted { "weighted" } else { "unweighted" });
+        if big {
+            out.class(format!("large_graph_n_above_{}", if n > 1000 { 1000 } else { 200 }));
+        }
         if any_ok && any_err {
             out.class("both_ok_and_err_on_grid");
         }
         if asymmetric {
             out.class("asymmetric_directed");
         }
-        out.nontrivial = n >= 3 && (asymmetric || slow) && any_ok && any_err;
+        out.nontrivial = n >= 3 && (asymmetric || slow) && any_ok && (any_err || big);
         out
     }
 }
